@@ -5,6 +5,7 @@ import Rio.Model.Fetch
 import Rio.Model.Cache
 import Rio.Model.Kvfs
 import Rio.Model.Asm
+import Rio.Model.Osfs
 namespace Rio.Driver
 open Rio
 
@@ -210,6 +211,35 @@ def asm15Engine : List String → String
         | _ => ""
       s!"evs={",".intercalate (evs.filterMap obs)} res={r}{td}"
     | none => "bad-op"
+  | _ => "bad-op"
+
+def parseTree_ (s : String) : Option Tree_ :=
+  if s = "-" then some [] else (s.splitOn ",").mapM (fun t => match t.splitOn "=" with
+    | [p, "d"] => do pure ((← fromHex p), Node.dir)
+    | [p, "f"] => do pure ((← fromHex p), Node.file)
+    | [p, l] => match l.splitOn ":" with
+      | ["L", tg] => do pure ((← fromHex p), Node.link (← fromHex tg))
+      | _ => none
+    | _ => none)
+
+def showResolved : Resolved → String
+  | .ok p => "ok " ++ toHex p.path
+  | .err c _ => "err " ++ c.tok
+  | .hostFollow => "hostfollow"
+  | .outOfFuel => "out-of-fuel"
+
+/-- `osfs <tree> realpath <0|1> <path>` / `osfs <tree> resolvelink <target> <startingAt>` -/
+def osfsEngine : List String → String
+  | [tr, "realpath", rl, p] => match parseTree_ tr, fromHex p with
+    | some t, some p => match mustRel p with
+      | some rp => showResolved (realpath t rp (rl = "1"))
+      | none => "panic"
+    | _, _ => "bad-op"
+  | [tr, "resolvelink", tg, st] => match parseTree_ tr, fromHex tg, fromHex st with
+    | some t, some tg, some st => match mustRel st with
+      | some sp => if sp.goesUp then "err fs-breakout" else showResolved (resolveLink t (numLinks t + 2) tg sp []).1
+      | none => "panic"
+    | _, _, _ => "bad-op"
   | _ => "bad-op"
 
 def schemeOfTok : String → Option Scheme
